@@ -73,6 +73,8 @@ pub struct Hist<'c> {
 	pub tainted: BTreeSet<(u8, Vec<u8>)>,
 	/// C11: histories that deliberately submit transactions conflicting with a postponed one
 	pub f4_probe: bool,
+	/// tree readers are locked / released during the history (C11; C03 on its tree layout)
+	pub tree_guards: bool,
 	pub fresh_key_counter: u64,
 	/// C11: reader handles obtained but not (yet) locked
 	pub handles: Vec<(Vec<u8>, std::sync::Arc<LockOf>)>,
@@ -193,6 +195,7 @@ impl<'c> Hist<'c> {
 		let dir = Scratch::new("st");
 		let model = Model::new(&cfg.cols);
 		let mut trees = BTreeMap::new();
+		let tree_layout = cfg.cols[0].multitree && !cfg.cols[0].append_only;
 		let mut pools = vec![];
 		let mut absent = vec![];
 		let mut groups = vec![];
@@ -303,11 +306,12 @@ impl<'c> Hist<'c> {
 			mirror: Default::default(),
 			tainted: BTreeSet::new(),
 			f4_probe: profile == Profile::C11 && variant % 3 == 0,
+			tree_guards: profile == Profile::C11 || (profile == Profile::C03 && tree_layout),
 			fresh_key_counter: 0,
 			handles: vec![],
 			bursts_left: if variant % 3 != 0 { 1 } else { 0 },
-			nesting: profile != Profile::C11 && (variant / 2) % 3 == 1,
-			midstep_reads: profile != Profile::C11 && variant % 2 == 0,
+			nesting: profile != Profile::C11 && !tree_layout && (variant / 2) % 3 == 1,
+			midstep_reads: profile != Profile::C11 && !tree_layout && variant % 2 == 0,
 		}
 	}
 
@@ -396,7 +400,7 @@ impl<'c> Hist<'c> {
 			self.drain(&db, rep)?;
 			self.validate(&db, rep, true)?;
 		}
-		if self.profile == Profile::C11 && !self.bg_err {
+		if self.tree_guards && !self.bg_err {
 			// log the queue through tracked steps: a postponement inside drop would reorder
 			// transactions without the queue mirror noticing (finding F4 is classified by it)
 			// No tree reader is locked any more (guards and handles were given up before the
@@ -559,6 +563,8 @@ impl<'c> Hist<'c> {
 			}
 			if self.profile == Profile::C11 {
 				w[10] = 30;
+			} else if self.tree_guards {
+				w[10] = 20;
 			}
 			if self.bg_err {
 				// after a background error only commits (all refused) and reads make sense
@@ -987,7 +993,7 @@ impl<'c> Hist<'c> {
 
 	fn do_commit(&mut self, db: &Db, rep: &mut Report) -> R<()> {
 		let mut tx = self.gen_tx();
-		if self.profile == Profile::C11 && !self.f4_probe && tx.iter().any(|o| matches!(o, Op::DerefTree(..))) {
+		if self.tree_guards && !self.f4_probe && tx.iter().any(|o| matches!(o, Op::DerefTree(..))) {
 			// a tree dereference may be postponed; outside the F4 probe histories it travels
 			// without writes to keys that other transactions also write
 			tx.retain(|o| self.cfg.cols[o.col() as usize].multitree);
@@ -1218,6 +1224,7 @@ impl<'c> Hist<'c> {
 				Ok(())
 			},
 			Profile::C11 => self.c11_action(db, rep, guards),
+			_ if self.tree_guards => self.c11_action(db, rep, guards),
 			_ => Ok(()),
 		}
 	}
@@ -1453,7 +1460,7 @@ impl<'c> Hist<'c> {
 				}
 			}
 		}
-		if !self.f4_probe && self.rng.chance(1, 3) {
+		if self.profile == Profile::C11 && !self.f4_probe && self.rng.chance(1, 3) {
 			// the same transaction also inserts a tree (new nodes only) under a root key nothing
 			// else touches: when the transaction is postponed, the new tree must stay readable
 			let free: Vec<Vec<u8>> = self.pools[c as usize]
